@@ -12,6 +12,7 @@ import (
 	"github.com/jig/lisp/types"
 
 	"verifharness/internal/lx"
+	"verifharness/internal/model"
 	"verifharness/internal/vf"
 )
 
@@ -58,9 +59,20 @@ func (s c08shape) names() string {
 }
 
 // program text: functions f0..f(k-1); fi calls f(i+1 mod k) in tail position through the wraps.
-func (s c08shape) program(n int, nonTail bool) string {
+func (s c08shape) program(n int, nonTail bool) string { return s.programVia(n, nonTail, 0) }
+
+// route 0: (def f (fn ...)) written in the text; route 1: the functions are defined through a
+// defn-style macro, so their (fn ...) forms are built by quasiquote and carry no source position;
+// route 2: as route 0, but the whole program is handed over as an AST without any source position
+// (as built from Go).
+var c08Routes = []string{"fn forms written in the text", "functions defined through a defn-style macro", "program given as an AST without source positions"}
+
+func (s c08shape) programVia(n int, nonTail bool, route int) string {
 	var sb strings.Builder
 	sb.WriteString("(do ")
+	if route == 1 {
+		sb.WriteString("(defmacro defn0 (fn [name params & body] `(def ~name (fn ~params ~@body)))) ")
+	}
 	for i := 0; i < s.funcs; i++ {
 		callee := fmt.Sprintf("(f%d (- n 1))", (i+1)%s.funcs)
 		if nonTail {
@@ -69,6 +81,10 @@ func (s c08shape) program(n int, nonTail bool) string {
 		body := callee
 		for j := len(s.wraps) - 1; j >= 0; j-- {
 			body = strings.Replace(c08Wraps[s.wraps[j]].text, "@", body, 1)
+		}
+		if route == 1 {
+			fmt.Fprintf(&sb, "(defn0 f%d [n] (depth!) (if (<= n 0) 0 %s)) ", i, body)
+			continue
 		}
 		fmt.Fprintf(&sb, "(def f%d (fn [n] (depth!) (if (<= n 0) 0 %s))) ", i, body)
 	}
@@ -105,15 +121,20 @@ func init() {
 			}
 			return shapes
 		}
-		run := func(text string) ([]int, error, *lx.Panic) {
+		runVia := func(text string, route int) ([]int, error, *lx.Panic) {
 			depths = depths[:0]
 			scope := env.NewSubordinateEnv(base)
-			_, err, p := lx.Eval(context.Background(), lx.MustRead(text), scope)
+			ast := lx.MustRead(text)
+			if route == 2 {
+				ast = model.ToImpl(model.FromImpl(ast)) // the same program, no source positions
+			}
+			_, err, p := lx.Eval(context.Background(), ast, scope)
 			return append([]int{}, depths...), err, p
 		}
+		run := func(text string) ([]int, error, *lx.Panic) { return runVia(text, 0) }
 		fam := &vf.Family{
 			Name:    "loop-shapes",
-			Bounds:  "every nesting of depth 0..2 (quick) / 0..3 (thorough) of the 10 tail-position constructs (do-last, let-body-last, let with empty / list-form bindings, if-then, if-else, cond clause, and-last, or-last, fn-body-last) around the recursive call x {self, 2-way mutual, 3-way mutual recursion}; iteration counts 3, 5, 50 (host stack depth at every iteration), thorough: additionally 20000 iterations under a 1 MiB stack limit",
+			Bounds:  "every nesting of depth 0..2 (quick) / 0..3 (thorough) of the 10 tail-position constructs (do-last, let-body-last, let with empty / list-form bindings, if-then, if-else, cond clause, and-last, or-last, fn-body-last) around the recursive call x {self, 2-way mutual, 3-way mutual recursion} x 3 definition routes (fn forms written in the text; functions defined through a defn-style macro; whole program as an AST without source positions); iteration counts 3, 5, 50 (host stack depth at every iteration), thorough: additionally 20000 iterations under a 1 MiB stack limit",
 			Setup:   setup,
 			Timeout: 300e9,
 			N:       func(t string) int64 { tier = t; return int64(len(shapesOf())) },
@@ -121,11 +142,15 @@ func init() {
 			Run: func(i int64, r *vf.Rec) {
 				s := shapesOf()[i]
 				r.NT()
-				for _, n := range []int{3, 5, 50} {
-					d, err, p := run(s.program(n, false))
+				for _, rn := range []struct{ route, n int }{{0, 3}, {0, 5}, {0, 50}, {1, 5}, {1, 50}, {2, 5}, {2, 50}} {
+					n := rn.n
+					d, err, p := runVia(s.programVia(n, false, rn.route), rn.route)
 					r.Exec(1)
+					if rn.route != 0 {
+						r.Outcome("route: " + c08Routes[rn.route])
+					}
 					if p != nil || err != nil {
-						r.Violation("tail-recursive loop fails", fmt.Sprintf("%s n=%d: err=%v panic=%v", s.names(), n, err, p))
+						r.Violation("tail-recursive loop fails", fmt.Sprintf("%s n=%d (%s): err=%v panic=%v", s.names(), n, c08Routes[rn.route], err, p))
 						return
 					}
 					if len(d) != n+1 {
@@ -135,7 +160,7 @@ func init() {
 					// iterations 2..n (the first one is entered from the top-level call)
 					for k := 2; k < len(d); k++ {
 						if d[k] != d[1] {
-							r.Violation("host stack depth grows in a tail-recursive loop", fmt.Sprintf("%s n=%d: depth at iteration 2 is %d, at iteration %d is %d (depths %v)", s.names(), n, d[1], k+1, d[k], trunc(d, 12)))
+							r.Violation("host stack depth grows in a tail-recursive loop", fmt.Sprintf("%s n=%d (%s): depth at iteration 2 is %d, at iteration %d is %d (depths %v)", s.names(), n, c08Routes[rn.route], d[1], k+1, d[k], trunc(d, 12)))
 							return
 						}
 					}
